@@ -4,6 +4,7 @@
 From Coq Require Import List ZArith Bool Lia.
 Import ListNotations.
 Require Import Base Tokenizer TokModel ExprParser ExprSound ExprComplete ExprTotal ExprLex ExprLexOk ExprString.
+Require Tables LexGrammar ExprSpacing.
 Open Scope Z_scope.
 
 (* every sentence of the grammar is accepted and compiled to the post-order of its syntax tree *)
@@ -52,6 +53,26 @@ Proof. exact sentences_are_accepted_as_text. Qed.
 Theorem C02_non_sentences_are_rejected_as_text : forall items, items <> [] -> Forall item_ok items -> wf_str (print items) ->
   (forall e, ~ D0 (toks_from 0 items) e) -> exists c, parse_string (print items) = Some (ExprParser.Err c).
 Proof. exact non_sentences_are_rejected_as_text. Qed.
+(* ... and with ANY spacing: between two items stand whitespace runs and block comments (gi pairs every item with the
+   fillers that follow it), or nothing where the grammar relation of C13 says the neighbours cannot merge *)
+Theorem C02_spaced_text_is_parsed_as_its_tokens : forall gi, gi <> [] -> ExprSpacing.gi_ok gi ->
+  LexGrammar.lexemes TokModel.expr_cfg (TokModel.regs_of Tables.expr_symbols) (ExprSpacing.glexs gi) -> wf_str (concat (map snd (ExprSpacing.glexs gi))) ->
+  parse_string (concat (map snd (ExprSpacing.glexs gi))) = Some (parse_top (ExprSpacing.toks_at 0 gi)).
+Proof. exact ExprSpacing.parse_string_spaced. Qed.
+Theorem C02_spaced_sentences_are_accepted : forall gi e, gi <> [] -> ExprSpacing.gi_ok gi ->
+  LexGrammar.lexemes TokModel.expr_cfg (TokModel.regs_of Tables.expr_symbols) (ExprSpacing.glexs gi) -> wf_str (concat (map snd (ExprSpacing.glexs gi))) ->
+  D0 (ExprSpacing.toks_at 0 gi) e -> parse_string (concat (map snd (ExprSpacing.glexs gi))) = Some (ExprParser.Ok (compile e)).
+Proof. exact ExprSpacing.spaced_sentences_are_accepted. Qed.
+Theorem C02_spaced_non_sentences_are_rejected : forall gi, gi <> [] -> ExprSpacing.gi_ok gi ->
+  LexGrammar.lexemes TokModel.expr_cfg (TokModel.regs_of Tables.expr_symbols) (ExprSpacing.glexs gi) -> wf_str (concat (map snd (ExprSpacing.glexs gi))) ->
+  (forall e, ~ D0 (ExprSpacing.toks_at 0 gi) e) -> exists c, parse_string (concat (map snd (ExprSpacing.glexs gi))) = Some (ExprParser.Err c).
+Proof. exact ExprSpacing.spaced_non_sentences_are_rejected. Qed.
+Example C02_spaced_text_premises_satisfiable :
+  ExprSpacing.gi_ok ExprSpacing.spaced_sample /\
+  LexGrammar.lexemes TokModel.expr_cfg (TokModel.regs_of Tables.expr_symbols) (ExprSpacing.glexs ExprSpacing.spaced_sample) /\
+  wf_str (concat (map snd (ExprSpacing.glexs ExprSpacing.spaced_sample))).
+Proof. exact ExprSpacing.spaced_sample_ok. Qed.
+
 (* non-vacuity:  a + 12 * ( b NoT iN 'x''y' )  meets the premises *)
 Example C02_text_premises_satisfiable : Forall item_ok sample_items /\ wf_str (print sample_items).
 Proof. exact sample_items_ok. Qed.
@@ -71,5 +92,8 @@ Print Assumptions C02_grammar_is_unambiguous.
 Print Assumptions C02_text_is_parsed_as_its_tokens.
 Print Assumptions C02_sentences_are_accepted_as_text.
 Print Assumptions C02_non_sentences_are_rejected_as_text.
+Print Assumptions C02_spaced_text_is_parsed_as_its_tokens.
+Print Assumptions C02_spaced_sentences_are_accepted.
+Print Assumptions C02_spaced_non_sentences_are_rejected.
 Print Assumptions C02_operator_table_is_the_language.
 Print Assumptions C02_operator_table_spells_nothing_else.
